@@ -59,6 +59,39 @@ impl<K: PartialEq + Copy, V> SmallMap<K, V> {
     pub fn contains_key(&self, k: &K) -> bool {
         self.pos(k).is_some()
     }
+    pub fn iter(&self) -> std::vec::IntoIter<(&K, &V)> {
+        let mut v = Vec::new();
+        let mut i = 0;
+        while i < MAP_CAP {
+            if let Some((k, val)) = &self.items[i] {
+                v.push((k, &**val));
+            }
+            i += 1;
+        }
+        v.into_iter()
+    }
+    pub fn values(&self) -> std::vec::IntoIter<&V> {
+        let mut v = Vec::new();
+        let mut i = 0;
+        while i < MAP_CAP {
+            if let Some((_, val)) = &self.items[i] {
+                v.push(&**val);
+            }
+            i += 1;
+        }
+        v.into_iter()
+    }
+    pub fn keys(&self) -> std::vec::IntoIter<&K> {
+        let mut v = Vec::new();
+        let mut i = 0;
+        while i < MAP_CAP {
+            if let Some((k, _)) = &self.items[i] {
+                v.push(k);
+            }
+            i += 1;
+        }
+        v.into_iter()
+    }
     pub fn len(&self) -> usize {
         let mut n = 0;
         let mut i = 0;
@@ -188,6 +221,17 @@ impl<K: Ord + Copy, V> OrdMap<K, V> {
     pub fn values(&self) -> Values<'_, K, V> {
         Values { m: self, i: 0 }
     }
+    pub fn keys(&self) -> std::vec::IntoIter<&K> {
+        let mut v = Vec::new();
+        let mut i = 0;
+        while i < ORD_CAP {
+            if let Some((k, _)) = &self.items[i] {
+                v.push(k);
+            }
+            i += 1;
+        }
+        v.into_iter()
+    }
     pub fn range<R: std::ops::RangeBounds<K>>(&self, r: R) -> std::vec::IntoIter<(&K, &V)> {
         let mut v = Vec::new();
         let mut i = 0;
@@ -239,7 +283,7 @@ impl<'a, K, V> Iterator for Values<'a, K, V> {
 }
 
 // ---- ghost log of what actions / previous handlers ran ------------------------------------------
-const LOGCAP: usize = 8;
+const LOGCAP: usize = 5;
 static mut LOG: [u8; LOGCAP] = [0; LOGCAP];
 static mut LOGN: usize = 0;
 fn log(tag: u8) {
@@ -318,7 +362,7 @@ unsafe fn log_is(expect: &[u8]) -> bool {
 macro_rules! hist {
     ($(#[$m:meta])* fn $name:ident() $body:block) => {
         #[kani::proof]
-        #[kani::unwind(10)]
+        #[kani::unwind(7)]
         #[kani::stub(Prev::execute, prev_execute_contract)]
         #[kani::stub(half_lock::WriteGuard::<T>::store, half_lock::verif_contract::store_contract)]
         #[kani::stub(alloc::sync::Arc::<T, A>::drop_slow, half_lock::verif_contract::arc_drop_slow_stub)]
